@@ -1,6 +1,7 @@
 import OmbottModel.Model.BodyAccess
 import OmbottModel.Lemmas.BodyAccessTotal
 import OmbottModel.Lemmas.FormsItems
+import OmbottModel.Props.C05
 import OmbottModel.Gen.Forms
 /-!
 C12 — Malformed request bodies yield client errors, never server faults.
@@ -43,8 +44,9 @@ handler or not): the outcome is a value (the handler goes on: 200) or an `HTTPEr
 catch-all of `_handle`.  Every function of `Model/Forms.lean` and `Model/BodyAccess.lean` is
 structurally recursive over its input, so none of the modelled loops can spin; the two `while True`
 loops of the multipart markup (`_eat_data`, `iter_markup`) carry fuel in `Model/Multipart.lean`, and
-that this fuel is never exhausted is C06's `eatData_never_out_of_fuel` /
-`iterMarkup_never_out_of_fuel` (the "no hang" half for those two loops rests on them). -/
+that this fuel is never exhausted is C06's `markup_total` (the markup of every input ends with no
+error or one of the three multipart error classes, never the `RuntimeError` that stands for an
+exhausted bound). -/
 theorem body_access_total (maxMemfile : Nat) (jl : JLoads) (hjl : JsonContract jl) (req : Req)
     (accs : List Accessor) :
     ∀ o ∈ accessSeq ⟨maxMemfile, Gen.formsErrorsMap⟩ jl req {} accs,
@@ -87,6 +89,46 @@ theorem delivered_fields_terminated (cfg : Cfg) (req : Req) (body : Bytes) (st :
   have e2 : ((k : Int) - dm.start).toNat = k - dm.start.toNat := by omega
   rw [e1, ← e2]
   exact this
+
+/-! ### composition with the body readers (C04, C05, C13) -/
+
+/-- the result of `_body_read` (`Model/BodyMixin.lean`) as the framing input of this model; `chunks`
+= the parts the reader yielded (`Sink` keeps only their concatenation) -/
+def framingOf (res : Except Err Body.Sink) (chunks : List Bytes) : Except FrErr (List Bytes) :=
+  match res with
+  | .ok _ => .ok chunks
+  | .error .bodySizeError => .error .size
+  | .error _ => .error .parsing
+
+/-- `framingOf` loses nothing: under either framing, for every stream, schedule, buffer and limit
+the reader returns a body or raises exactly one of the two classes of `FrErr` (C05 `chunked_total`,
+`cl_total`) -/
+theorem reader_result_covered (buf : Nat) (cl : Int) (chunked : Bool) (max : Option Nat) (r : Body.Rec) :
+    (∃ sk, (Body.bodyRead buf cl chunked max r).1 = .ok sk) ∨
+    (Body.bodyRead buf cl chunked max r).1 = .error .bodyParsingError ∨
+    (Body.bodyRead buf cl chunked max r).1 = .error .bodySizeError := by
+  cases h : (Body.bodyRead buf cl chunked max r).1 with
+  | ok sk => exact Or.inl ⟨sk, rfl⟩
+  | error e =>
+    right
+    cases chunked with
+    | true =>
+      rcases Ombott.Chunked.chunked_total buf max cl r e h with rfl | rfl
+      · exact Or.inl rfl
+      · exact Or.inr rfl
+    | false =>
+      have := Ombott.Chunked.cl_total buf max cl r e h
+      subst this; exact Or.inr rfl
+
+/-- `body_access_total` on top of the modelled readers: whatever `wsgi.input` delivers (any bytes,
+any read schedule), under either framing, with any `content_length`, buffer and size limit, and
+whatever parts the reader cut the payload into -/
+theorem body_access_total_framed (cfg : Body.Cfg) (cl : Int) (chunked : Bool) (r : Body.Rec)
+    (ct : Option Str) (chunks : List Bytes) (jl : JLoads) (hjl : JsonContract jl) (accs : List Accessor) :
+    ∀ o ∈ accessSeq ⟨cfg.memfile, Gen.formsErrorsMap⟩ jl
+        ⟨ct, cl, framingOf (Body.bodyRead cfg.memfile cl chunked cfg.maxBody r).1 chunks⟩ {} accs,
+      statusOf o = 200 ∨ (400 ≤ statusOf o ∧ statusOf o < 500) :=
+  body_access_total cfg.memfile jl hjl _ accs
 
 section NonVacuity
 
